@@ -672,7 +672,13 @@ func validateV2Siacoins(ms *MidState, txn types.V2Transaction) error {
 
 	var inputSum, outputSum types.Currency
 	for _, sci := range txn.SiacoinInputs {
-		inputSum = inputSum.Add(sci.Parent.SiacoinOutput.Value)
+		// NOTE: below EphemeralOutputHeight the claimed value of an ephemeral
+		// parent is unchecked, so the sum is not bounded by the supply
+		var overflow bool
+		inputSum, overflow = inputSum.AddWithOverflow(sci.Parent.SiacoinOutput.Value)
+		if overflow {
+			return errors.New("siacoin inputs overflow")
+		}
 	}
 	for i, out := range txn.SiacoinOutputs {
 		if out.Value.IsZero() {
@@ -707,6 +713,14 @@ func validateEphemeralSiafundElement(ms *MidState, sfi types.V2SiafundInput) err
 		return fmt.Errorf("spends nonexistent ephemeral output %v", sfi.Parent.ID)
 	} else if ms.base.childHeight() >= ms.base.Network.HardforkV2.EphemeralOutputHeight {
 		return fmt.Errorf("spends ephemeral output %v", sfi.Parent.ID)
+	}
+	// Below EphemeralOutputHeight the claimed parent is not compared with the
+	// output created earlier in the block. Its claim must still be computable:
+	// applying the transaction would otherwise panic.
+	if sfi.Parent.ClaimStart.Cmp(ms.siafundTaxRevenue) > 0 {
+		return fmt.Errorf("claims invalid claim start for ephemeral output %v", sfi.Parent.ID)
+	} else if _, overflow := ms.siafundTaxRevenue.Sub(sfi.Parent.ClaimStart).Div64(ms.base.SiafundCount()).Mul64WithOverflow(sfi.Parent.SiafundOutput.Value); overflow {
+		return fmt.Errorf("claims invalid value for ephemeral output %v", sfi.Parent.ID)
 	}
 	return nil
 }
